@@ -75,6 +75,9 @@ class Tissue:
         r = self.ridges[ri]
         za, zb = self.J[r.a], self.J[r.b]
         ts = [(k + 1) / (n_int + 1) for k in range(n_int)]
+        tpow = self.meta.get("tpow", 1.0)
+        if tpow != 1.0:
+            ts = [t ** tpow for t in ts]      # non-uniform spacing along the interface (same curve)
         if r.c is None:
             return [za + (zb - za) * t for t in ts]
         return [r.c + (za - r.c) * cmath.exp(1j * r.theta * t) for t in ts]
